@@ -24,6 +24,7 @@ Lemmas: `Lemmas/d17MsgpackNP.lean`, `Lemmas/d17MsgpackAlloc.lean`, `Lemmas/d17Al
 -/
 import CtyModel.Props.C17Json
 import CtyModel.Lemmas.d17MsgpackNP
+import CtyModel.Lemmas.d17MsgpackConf
 import CtyModel.Lemmas.d17MsgpackAlloc
 import CtyModel.Lemmas.d17AllocSites
 import CtyModel.Lemmas.d17JsonDepth
@@ -129,6 +130,41 @@ example :
       | .ok v => Ty.conformErrs (.object ["m", "s", "t", "u"] [.map .number, .set .string, .tuple [.bool, .dyn], .number]
           [false, false, false, false]) v.ty == 0 && !v.ty.hasOpt
       | _ => false) = true := by decide +kernel
+
+/-! ## Clause 2 — a returned value conforms to the requested type -/
+
+/-- A value `msgpack.Unmarshal` returns has a type that CONFORMS to the requested type — C07's
+relation: `TestConformance` reports no error (`Ty.conformErrs ty v.ty = 0`) — that is well-formed and
+(since /repo afdc0a2) carries no optional-attribute annotation.  Every item tree whose map items are
+parallel lists (`itemOk`, the representation invariant of `Item.map`: the lexer makes them from
+pairs), every well-formed requested type, every equality oracle, every `Ext` — no assumption on the
+external functions at all.  (Before /repo d1824c6 and a52fc1e this was false: `0x90` decoded to the
+empty tuple whatever the tuple type, and an object with a repeated attribute to an object that
+lacked another one.) -/
+theorem msgpack_ok_conforms [EqOracle] (E : Ext) (it : Item) (ty : Ty) (v : Value) (hi : itemOk it = true)
+    (hty : Ty.wf ty = true) (h : D17.Unmarshal E it ty = .ok v) :
+    Ty.conformErrs ty v.ty = 0 ∧ Ty.matches ty v.ty = true ∧ Ty.hasOpt v.ty = false ∧ Ty.wf v.ty = true := by
+  obtain ⟨g1, g2, g3⟩ := Unmarshal_good E it ty v hi hty h
+  exact ⟨(Ty.conform_iff ty v.ty hty g1).mpr g2, g2, g3, g1⟩
+
+/-- An unknown-value extension item that decodes at all decodes to a value of EXACTLY the requested
+type (refined, null, or — for a number or a collection pinned down by its refinements — known):
+the refinement map cannot change the type. -/
+theorem msgpack_unknown_has_requested_type [EqOracle] (E : Ext) (code : Int) (len : Nat) (hdr : ExtHdr)
+    (stream : List Item) (ty : Ty) (v : Value) (h : D17.unmarshal E (.ext code len hdr stream) ty = .ok v) :
+    v.ty = ty :=
+  ext_ty E h
+
+/-- the hypotheses are met by ordinary documents, through `ok` results: the document of the example
+above (object, map, set, tuple with a dynamic wrapper, refined unknown) is `itemOk` and decodes -/
+example :
+    itemOk (.map [.str "m", .str "s", .str "t", .str "u"]
+          [.map [.str "b", .str "a"] [.int 1, .str "2.5"],
+           .arr [.str "x", .str "y"],
+           .arr [.bool true, .arr [.binj (.arr [.str "list", .str "string"]), .arr [.str "p"]]],
+           .ext 12 9 (.map 2) [.int 1, .bool false, .int 3, .arr [.int 0, .bool true]]]) = true ∧
+    Ty.wf (.object ["m", "s", "t", "u"] [.map .number, .set .string, .tuple [.bool, .dyn], .number]
+          [false, false, true, false]) = true := by decide +kernel
 
 /-! ## The limits, tied to the source -/
 
